@@ -168,6 +168,8 @@ def rec_scene(seed):
         grouped_ok = grouping != 'none' or all((a - c) ** 2 + (b - d) ** 2 > 36 ** 2 for k, (a, b) in enumerate(pos) for (c, d) in pos[k + 1:])
         merged_ok = grouping not in ('supplied', 'both')
         rec['check_recovery'] = bool(full and grouped_ok and merged_ok and not fix_x and not mask_l and not nan_l and mkind in ('circ', 'gauss', 'image', 'circfree'))
+        if mkind == 'circfree':      # a free width per source makes blends degenerate: recovery is demanded for sources at least 9 px apart
+            rec['check_recovery'] = rec['check_recovery'] and all((a - c) ** 2 + (b - d) ** 2 >= 36 ** 2 for k, (a, b) in enumerate(pos) for (c, d) in pos[k + 1:])
         if bounds:       # the truth must lie inside every xy_bounds box
             rec['check_recovery'] = rec['check_recovery'] and all(abs(a - c) / 4.0 < bval - 0.02 and abs(b - d) / 4.0 < bval - 0.02 for (a, b), (c, d) in zip(ipos, pos))
         if grouping == 'grouper':      # every close pair must actually be in one group for joint fitting to recover it
